@@ -25,14 +25,20 @@
   evaluation, for every expiry index (also 0) and whatever the outcome; it is the same board for
   every allowance.  So the board handed back when no evaluation completed is "the first move in its
   ordering", and boards are only ever appended after it.
-  Not proved (decided by the every-k sweep with order-log replay): that every later board on the
-  channel is paired with exactly one info line (checked per run), and the absence of index panics
+  `larger_allowance_only_extends_boards` (Proofs/PrefixPairs, PrefixPairsSearch: the same relational
+  invariant with the observation "board handed over + its info line"): the sequence of (board, info
+  line) pairs reported under expiry k is a prefix of the sequence under any later expiry or none — so
+  every board handed over as an improvement under a small allowance is, with its score, one the
+  unbounded search hands over too: it comes from a fully completed evaluation.
+  Not proved (decided by the every-k sweep with order-log replay): the absence of index panics
   beyond ply 99 (L1 in DESIGN.md: not reachable by any real time control, theoretical).
 -/
 import Walleye.Proofs.Reports
 import Walleye.Proofs.PrefixSearch
 import Walleye.Proofs.RootRange
 import Walleye.Proofs.Fallback
+import Walleye.Proofs.PrefixPairsSearch
+import Walleye.Proofs.Paired
 namespace Walleye
 open DrawTable
 
@@ -137,5 +143,32 @@ theorem fallback_is_independent_of_the_allowance (hne : OrdNonempty ord) (fuel :
   injection h2 with hf _
   subst hf
   exact ⟨f1, r1, r2, e1, e2⟩
+
+
+/-- **C07, for the boards too**: a `sent m` immediately followed by an `info i` is the improvement
+    (m, i) (`infosOfB`; a `sent` without an info line after it — the fall-back board — is none).
+    The sequence of improvements, boards and info lines together, reported with the clock expiring
+    at consultation k is a prefix of the sequence reported with any later expiry, or none: every board
+    handed over under the smaller allowance, with its depth, node count, score and PV, is handed over
+    under the larger one as well, in the same order.  In particular no board and no score ever comes
+    from a sub-search that the clock cut short (the unbounded run has none). -/
+theorem larger_allowance_only_extends_boards (fuel : Nat) (root : P) (table : DrawTable) (o : O) (k : Nat)
+    (e2 : Option Nat) (hl : LaterB k e2) :
+    infosOfB (getBestMove g ord fuel root (newSS (some k) table o)).stB.reports <+:
+      infosOfB (getBestMove g ord fuel root (newSS e2 table o)).stB.reports :=
+  reports_prefixB g ord fuel root table o k e2 hl
+
+/-- the pairing, on a small example: fall-back board, two improvements, a trailing fall-back board -/
+example (a b c : Nat) (i j : Info) :
+    infosOfB (#[Report.sent a, .sent b, .info i, .sent c, .info j, .sent a] : Array (Report Nat)) = [(b, i), (c, j)] := rfl
+
+
+/-- and nothing is lost by looking at pairs: at every point of every run, whatever its outcome, every
+    info line is immediately preceded by the board handed over for it — the improvements as pairs
+    project exactly onto the info lines -/
+theorem every_info_line_has_its_board (fuel : Nat) (root : P) (s : SS P O) (hs : s.reports = #[]) :
+    (infosOfB (outState (getBestMove g ord fuel root s)).reports).map Prod.snd =
+      infosOf (outState (getBestMove g ord fuel root s)).reports :=
+  getBestMove_paired g ord fuel root s hs
 
 end Walleye
